@@ -109,6 +109,10 @@ MonRet(m, e) ==
             ELSE LET c == ContentClause(m, e, CHOOSE l \in mine : TRUE) IN IF c = "ok" THEN m ELSE Bad(m, c)
   ELSE m
 
+\* the caller closes a streaming generator before the device closed the stream: whatever was delivered to the caller has been acknowledged
+\* (the stream itself is left as it is: the library sends nothing when a generator is closed)
+MonAbandon(m, e) == IF \E l \in Mine(m, e.t) : m.st[l].devUn > 0 /\ ~m.st[l].hostClosed THEN Bad(m, "C04.MissingOkay") ELSE m
+
 \* C06: an operation that can never complete although the device owes it nothing more (reported by the scheduler, never waited for)
 MonStuck(m, e) == IF \E l \in Mine(m, e.t) : m.st[l].k1 THEN Bad(m, "C06.Stuck.K1") ELSE Bad(m, "C06.Stuck")
 
